@@ -166,7 +166,7 @@ func main() {
 				}
 				rk := pbfrec.ReaderKindFor(line, *seed, pi, procs)
 				run.Reader = rk
-				r := pbfrec.ScanFrom(pbfrec.NewReader(rk, data, *seed), procs, false, configure, onObj, 60*time.Second)
+				r := pbfrec.ScanFrom(pbfrec.NewReader(rk, data, *seed), procs, false, configure, onObj, 20*time.Second)
 				if r.Hang {
 					run = Run{Procs: procs, Profile: pi, Reader: rk, Elems: []interface{}{}, Mutated: []bool{}, Err: "hang"}
 				} else {
